@@ -18,10 +18,11 @@ def distinct_nontrivial(cases, outs, nontrivial):
 
 def differential(chk: core.Check, driver: str, cases: list, to_coq, imports: str, *, run_fn="run",
                  describe=lambda c, o: "", region=lambda c, o: None, component="", more_cases=None,
-                 hashseed="0", chunk=300, extra_env=None, timeout=900, kind=lambda c: str(c.get("op", "")), per_kind=2, expand=None, coq_regions=()):
+                 hashseed="0", chunk=300, extra_env=None, timeout=900, kind=lambda c: str(c.get("op", "")), per_kind=2, expand=None, coq_regions=(), precomputed=None):
     """Returns (outs, corr_fail, orac_fail).  Adds violations to chk.
     region(c, o) -> id of a known finding covering this failing case, or None."""
-    res = core.run_impl(driver, {"cases": cases}, hashseed=hashseed, extra_env=extra_env, timeout=timeout)
+    # precomputed: the implementation was already run on these cases by the caller (which filtered them)
+    res = precomputed if precomputed is not None else core.run_impl(driver, {"cases": cases}, hashseed=hashseed, extra_env=extra_env, timeout=timeout)
     if isinstance(res, dict) and res.get("driver_failed"):
         chk.violation(
             "correspondence",
